@@ -4,6 +4,8 @@
 // sequential object), carrying the call's arguments and the projected observable state.
 #pragma once
 #include <memory>
+#include <queue>
+#include <tuple>
 #include <variant>
 
 #include "fastscapelib/flow/flow_graph.hpp"
@@ -290,7 +292,21 @@ namespace vh
                     try
                     {
                         auto seq = fs::make_flow_operator_sequence<impl_t>(h.ops);
-                        h.fg = std::make_unique<fg_t>(*grid, std::move(seq));
+                        const std::string via = s.get_str("via", "");
+                        if (via == "assign")
+                        {
+                            // the sequence travels through the (public) move assignment first: onto an
+                            // empty sequence, or onto one that already holds other operators ("via_ops")
+                            std::vector<op_holder> donor;
+                            if (s.has("via_ops"))
+                                for (auto& e : s["via_ops"].a)
+                                    donor.push_back(make_op(*e));
+                            auto seq2 = fs::make_flow_operator_sequence<impl_t>(donor);
+                            seq2 = std::move(seq);
+                            h.fg = std::make_unique<fg_t>(*grid, std::move(seq2));
+                        }
+                        else
+                            h.fg = std::make_unique<fg_t>(*grid, std::move(seq));
                     }
                     catch (const std::exception& e)
                     {
@@ -411,6 +427,50 @@ namespace vh
                         same[i] = same_bits(zi[i], zo[i]) ? 1 : 0;
                     }
                     o.raw("zin", rk.refs(zi)).raw("zout", rk.refs(zo)).ints("same", same);
+                    {
+                        // Certificate for the spill level of the input (an untrusted hint: TLC verifies
+                        // that it is the least fixpoint before using it): for every node the node whose
+                        // input elevation is its spill level, a neighbour through which that level is
+                        // reached and the order in which a flood from the base levels reaches the nodes.
+                        std::vector<long long> spn(n, -1), spp(n, -1), spo(n, -1);
+                        std::vector<char> msk(n, 0), isbl(n, 0), done(n, 0);
+                        auto mk = h.fg->mask();
+                        if (mk.size() == n)
+                            for (size_t i = 0; i < n; ++i)
+                                msk[i] = mk.flat(i) ? 1 : 0;
+                        for (auto b : h.fg->base_levels())
+                            if (b < n)
+                                isbl[b] = 1;
+                        using item = std::tuple<double, long long, size_t, long long, long long>;  // level, seq, node, level node, parent
+                        std::priority_queue<item, std::vector<item>, std::greater<item>> pq;
+                        long long seq = 0;
+                        for (size_t b = 0; b < n; ++b)
+                            if (isbl[b] && !msk[b])
+                                pq.push(item(zi[b], seq++, b, static_cast<long long>(b), -1));
+                        long long order = 0;
+                        typename G::neighbors_indices_type nbuf;
+                        while (!pq.empty())
+                        {
+                            auto [lv, sq, i, ln, par] = pq.top();
+                            pq.pop();
+                            (void) sq;
+                            if (done[i])
+                                continue;
+                            done[i] = 1;
+                            spn[i] = ln;
+                            spp[i] = par;
+                            spo[i] = order++;
+                            for (auto m : grid->neighbors_indices(i, nbuf))
+                            {
+                                if (m >= n || done[m] || msk[m] || isbl[m])
+                                    continue;
+                                bool up = zi[m] > lv;
+                                pq.push(item(up ? zi[m] : lv, seq++, m, up ? static_cast<long long>(m) : ln,
+                                             static_cast<long long>(i)));
+                            }
+                        }
+                        o.ints("spn", spn).ints("spp", spp).ints("spo", spo);
+                    }
                     o.num("argsame", argsame ? 1 : 0);
                     o.num("retarg", (&out == &h.z) ? 1 : 0);
                     dump_impl(o, h.fg->impl());
@@ -471,6 +531,20 @@ namespace vh
                         ar[i] = arx[i] ? static_cast<long long>(ga) : 0;
                     }
                     o.ints("ai", ai).ints("ax", ax).ints("area", ar).ints("areax", arx);
+                    {
+                        // fixed-point copy (units of 2^-5) for the approximate balance, checked on every
+                        // graph whose values are in range (integer areas, |acc| < 4096, unscaled grid)
+                        std::vector<long long> aq(n, 0);
+                        bool okq = dsc == 0;
+                        for (size_t i = 0; i < n && okq; ++i)
+                        {
+                            double a = res[0].flat(i);
+                            okq = std::isfinite(a) && std::fabs(a) < 4096.0 && arx[i];
+                            if (okq)
+                                aq[i] = std::llround(std::ldexp(a, 5));
+                        }
+                        o.ints("aq", aq).num("aqx", okq ? 1 : 0);
+                    }
                     o.raw("rarea", rk.refs(areas));
                     o.raw("rzero", rk.ref(0.0));
                     emit(o.done());
